@@ -64,6 +64,13 @@ def rand_vec(rng, n, style):
             v += [0.0, 0.0] if c < 0.35 else [x, 0.0] if c < 0.55 else [0.0, y] if c < 0.8 else [x, y]
         if not any(v): v[-1] = 0.7
         return [float2bits(x) for x in v]
+    if style == "dominant":         # one amplitude of order 1 (at |0..0> half of the time), all others of order 1e-5 .. 1e-7: the weight of
+        k = 0 if rng.random() < 0.5 else rng.randrange(dim)   # most control branches is far below single-precision epsilon, yet not zero
+        sc = rng.choice([1e-5, 1e-6, 1e-7])
+        xs = [rng.uniform(-1, 1) * sc for _ in range(2 * dim)]
+        xs[2 * k], xs[2 * k + 1] = 0.6, -0.8
+        nrm = math.sqrt(sum(x * x for x in xs))
+        return [float2bits(x / nrm) for x in xs]
     if style == "spike":            # one nonzero amplitude, generic phase
         k = rng.randrange(dim)
         v = [0.0] * (2 * dim)
